@@ -437,7 +437,7 @@ def _has_quantifier(ts):
 def explore(run, on_path=None, max_paths=4000):
     """run all paths; returns list of (ctx, outcome, args, result/exc)"""
     C = run.C
-    mod, fnode = run.registry.function(C.target)
+    mod, fnode = run.registry.function(C.target, C.locate)
     results = []
     while run.work:
         decisions = run.work.pop()
@@ -454,7 +454,7 @@ def explore(run, on_path=None, max_paths=4000):
             if C.requires is not None:
                 ctx.assume(C.requires(a))
             interp = Interp(ctx, mod, run.lib, run.contracts, target_contract=C, inline=C.inline)
-            interp.self_qual = C.target
+            interp.self_qual = C.target if C.name == C.target else None
             C.freeze(args)
             outcome, value = None, None
             try:
